@@ -14,6 +14,7 @@ import (
 	"strconv"
 	"strings"
 	"sync"
+	"sync/atomic"
 	"time"
 
 	"verifharness/hx"
@@ -51,16 +52,18 @@ func pathParam(path, prefix string) int {
 // echoBackend is the harness backend: it echoes the token it received into every part of the
 // response and records what it saw.
 type echoBackend struct {
-	ln    net.Listener
-	srv   *http.Server
-	mu    sync.Mutex
-	calls map[string]int
+	silent  bool          // volume scenarios: no per-request events
+	release chan struct{} // closed to let the requests with latency class 77777 ("held") go on
+	ln      net.Listener
+	srv     *http.Server
+	mu      sync.Mutex
+	calls   map[string]int
 	// misbehave, if set, may take over a request (fault injection); it returns true if it did.
 	misbehave func(w http.ResponseWriter, r *http.Request, tok string) bool
 }
 
 func newEchoBackend() *echoBackend {
-	b := &echoBackend{calls: map[string]int{}}
+	b := &echoBackend{calls: map[string]int{}, release: make(chan struct{})}
 	ln, err := net.Listen("tcp", "127.0.0.1:0")
 	if err != nil {
 		panic(err)
@@ -110,11 +113,18 @@ func (b *echoBackend) handle(w http.ResponseWriter, r *http.Request) {
 	b.mu.Lock()
 	b.calls[path]++
 	b.mu.Unlock()
-	hx.Emit("BackendHandle", "tok", tok, "method", r.Method)
+	if !b.silent {
+		hx.Emit("BackendHandle", "tok", tok, "method", r.Method)
+	}
 	if b.misbehave != nil && b.misbehave(w, r, tok) {
 		return
 	}
-	if lat := pathParam(path, "l"); lat > 0 {
+	if lat := pathParam(path, "l"); lat == 77777 {
+		select {
+		case <-b.release:
+		case <-time.After(60 * time.Second):
+		}
+	} else if lat > 0 {
 		time.Sleep(time.Duration(lat) * time.Millisecond)
 	}
 	// trailer mode of the response (path segment m<k>): 0 declared, 1 undeclared (http.TrailerPrefix), 2 none
@@ -126,7 +136,9 @@ func (b *echoBackend) handle(w http.ResponseWriter, r *http.Request) {
 	w.Header().Add("X-Token-Multi", tok)
 	w.Header().Add("X-Token-Multi", tok+"+2")
 	w.Header().Set("Content-Type", "application/octet-stream")
-	hx.Emit("BackendReply", "tok", tok)
+	if !b.silent {
+		hx.Emit("BackendReply", "tok", tok)
+	}
 	w.WriteHeader(200)
 	if tmode == 1 {
 		// an undeclared trailer needs a chunked response: flushing the header settles that
@@ -152,6 +164,10 @@ func (b *echoBackend) handle(w http.ResponseWriter, r *http.Request) {
 
 // relayClient performs one client request through the proxy and reports what came back.
 func relayClient(proxyAddr, path string, timeout time.Duration) (kind, tok string) {
+	return relayClientOpt(proxyAddr, path, timeout, true)
+}
+
+func relayClientOpt(proxyAddr, path string, timeout time.Duration, announce bool) (kind, tok string) {
 	method := "GET"
 	var body io.Reader
 	if q := pathParam(path, "q"); q > 0 {
@@ -163,7 +179,9 @@ func relayClient(proxyAddr, path string, timeout time.Duration) (kind, tok strin
 	tr := &http.Transport{DisableKeepAlives: true}
 	defer tr.CloseIdleConnections()
 	cl := &http.Client{Transport: tr, Timeout: timeout}
-	hx.Emit("ClientSend", "r", path)
+	if announce {
+		hx.Emit("ClientSend", "r", path)
+	}
 	resp, err := cl.Do(req)
 	if err != nil {
 		return "none", "none"
@@ -378,6 +396,72 @@ func relayDriver(a *Args) {
 		env.stop()
 	}
 	res.Extra["requests"] = n
+	if a.Mode == "" {
+		relayVolume(res)
+	}
+}
+
+// relayVolume: one exchange stays at the backend while more than a thousand others come and go, and the slow one is
+// answered while a window of further requests is waiting - tables that are trimmed, wrap or get reused after N
+// requests show here.  No per-request events (hooks off); one summary event, every response judged by its token.
+func relayVolume(res *hx.Result) {
+	prompt, window := 1100, 64
+	if hx.Thorough() {
+		prompt = 9000
+	}
+	hx.Reset("relay-volume", "relay-volume")
+	env, err := startRelayEnv(res, "", nil, []string{"VERIF_TRACE="}, "")
+	if err != nil {
+		res.Bad("cannot start proxy/agent: %v", err)
+		return
+	}
+	defer env.stop()
+	env.backend.silent = true
+	var wrong, unanswered, other, ok int64
+	var example atomic.Value
+	one := func(path string, timeout time.Duration) {
+		k, t := relayClientOpt(env.proxyAddr(), path, timeout, false)
+		switch {
+		case k == "ok" && t == path:
+			atomic.AddInt64(&ok, 1)
+		case k == "none":
+			atomic.AddInt64(&unanswered, 1)
+			example.Store("no response for " + path)
+		case k == "ok" || strings.HasPrefix(k, "mixed"):
+			atomic.AddInt64(&wrong, 1)
+			example.Store(fmt.Sprintf("request %s received the response of %s (%s)", path, t, k))
+		default:
+			atomic.AddInt64(&other, 1)
+			example.Store(fmt.Sprintf("request %s: %s", path, k))
+		}
+	}
+	one("/t/xwarm0000/b10/l0/q0/m2", 30*time.Second)
+	var wg sync.WaitGroup
+	wg.Add(1)
+	go func() { defer wg.Done(); one("/t/xheld0001/b300/l77777/q0/m0", 90*time.Second) }()
+	time.Sleep(300 * time.Millisecond) // the held request is at the backend
+	t0 := time.Now()
+	runConcurrently(prompt, 32, func(i int) {
+		one(fmt.Sprintf("/t/xprompt%05d/b%d/l0/q%d/m%d", i, []int{0, 10, 5000}[i%3], []int{0, 0, 100}[i%3], i%3), 60*time.Second)
+	})
+	promptMs := time.Since(t0).Milliseconds()
+	for i := 0; i < window; i++ {
+		wg.Add(1)
+		go func(i int) {
+			defer wg.Done()
+			one(fmt.Sprintf("/t/xwindow%03d/b200/l1500/q0/m1", i), 60*time.Second)
+		}(i)
+	}
+	time.Sleep(500 * time.Millisecond) // the window is waiting; now the held exchange is answered
+	close(env.backend.release)
+	wg.Wait()
+	aEx, _ := env.agent.Exited()
+	pEx, _ := env.proxy.Exited()
+	ex, _ := example.Load().(string)
+	hx.Emit("RelayVolume", "requests", prompt+window+2, "ok", ok, "wrong", wrong, "unanswered", unanswered, "other", other,
+		"agent_alive", !aEx, "proxy_alive", !pEx, "example", ex)
+	res.Case("volume:held+prompt+window", map[string]interface{}{"prompt": prompt, "window": window, "prompt_ms": promptMs, "ok": ok})
+	res.Extra["volume"] = map[string]interface{}{"requests": prompt + window + 2, "prompt_ms": promptMs}
 }
 
 // relayPollers: foreign pollers compete with the agent for request IDs (C04, stand-alone proxy).
